@@ -23,6 +23,8 @@
                         input : [4; size]          output: [nc; ns; nsync]  ([0;0;0] = AssertionError)
    kind 5 (meta-less reader, nc/ns/fs given)
                         input : [5; n; nc; ns; f]  f 1=.bin 2=.cbin     output: [1; exposed ns] or [0; 0] (ValueError)
+   kind 6 (file names)  input : [6] ++ character codes of the source file name x
+                        output: enc_zlist of x.cbin_tmp, x.ch_tmp, the published .cbin and .ch names
    state quadruple: [0;0;0;0] absent, [1;j;0;0] partial with j chunks,
                     [2;t;r;c] complete with tag t (1 Orig 2 Comp 3 Hdr 4 MetaOf). *)
 From Coq Require Import ZArith List Bool.
@@ -144,6 +146,10 @@ Definition run (inp : list Z) : list Z :=
   | [5; n; nc; ns; f] =>
       match r_open_nometa (mkW n nc 0 n false) (if f =? 1 then DBin else DCbin) ns with
       | Some k => [1; k] | None => [0; 0] end
+  | 6 :: name =>
+      let '(a, b, c, d) := published_names name [99;98;105;110;95;116;109;112] [99;104;95;116;109;112]
+                                           [99;98;105;110] [99;104] in
+      enc_zlist a ++ enc_zlist b ++ enc_zlist c ++ enc_zlist d
   | [4; size] => match flat_guess size with Some (nc, ns, nsy) => [nc; ns; nsy] | None => [0; 0; 0] end
   | _ => [-999]
   end.
